@@ -77,7 +77,7 @@ def run_stream(cmd, lines, op_timeout, cwd=None):
             rc = proc.wait()
             et.join(1)
             tail = (err_chunks[0].decode("utf-8", "replace") if err_chunks else "")
-            tail = " ".join(tail.strip().split("\n")[-2:])[:200]
+            tail = " ".join(l.strip() for l in tail.strip().split("\n")[-5:] if l.strip() and not l.startswith("note:"))[:400]
             answers[pos] = "crash %s %s" % (_signame(rc) if rc < 0 else "exit%d" % rc, tail)
             pos += 1
     return answers
